@@ -511,6 +511,13 @@ pub(crate) fn load_defs(ctx: &mut Context, defs: Defs) -> Vec<String> {
     }
     let sorted = resolver.sorted;
     let mut input = resolver.input;
+    // A long prefix can also be used as a unit. A unit of the same name
+    // is what the name means then, whichever of the two comes first.
+    let unit_names: BTreeSet<Rc<String>> = input
+        .keys()
+        .filter(|id| id.namespace == Namespace::Unit)
+        .map(|id| id.name.clone())
+        .collect();
     let udefs = sorted.into_iter().map(move |name| {
         let res = input.remove(&name).unwrap();
         (name, res)
@@ -595,7 +602,10 @@ pub(crate) fn load_defs(ctx: &mut Context, defs: Defs) -> Vec<String> {
                 Ok(value) => {
                     prefix_lookup.insert(name.clone(), value.clone());
                     ctx.registry.prefixes.push((name.clone(), value.clone()));
-                    if is_long {
+                    let unit_of_this_load = unit_names.contains(&id.name);
+                    let unit_of_an_earlier_load = ctx.registry.units.contains_key(&name)
+                        && ctx.registry.definitions.contains_key(&name);
+                    if is_long && !unit_of_this_load && !unit_of_an_earlier_load {
                         ctx.registry
                             .units
                             .insert(name.clone(), Number::new(value.clone()));
